@@ -73,7 +73,7 @@ pub fn rr(args: &[&str]) -> Option<Vec<String>> {
     // `h`: the peer keeps the connection open for 400 ms after the last piece (a malformed reply must be
     // reported at once, not when the peer finally closes)
     let hold = args.get(3).copied() == Some("h");
-    let listener = TcpListener::bind("127.0.0.1:0").ok()?;
+    let listener = TcpListener::bind((crate::util::lo(), 0)).ok()?;
     let port = listener.local_addr().ok()?.port();
     let stream2 = stream.clone();
     let server = std::thread::spawn(move || {
@@ -116,7 +116,7 @@ pub fn rr(args: &[&str]) -> Option<Vec<String>> {
     match mode {
         "s" => {
             let mut c = lettre::transport::smtp::client::SmtpConnection::connect(
-                ("127.0.0.1", port),
+                (crate::util::lo(), port),
                 Some(std::time::Duration::from_secs(5)),
                 &hello,
                 None,
@@ -143,7 +143,7 @@ pub fn rr(args: &[&str]) -> Option<Vec<String>> {
             rt.block_on(async {
                 let mut c =
                     lettre::transport::smtp::client::AsyncSmtpConnection::connect_tokio1(
-                        ("127.0.0.1", port),
+                        (crate::util::lo(), port),
                         Some(std::time::Duration::from_secs(5)),
                         &hello,
                         None,
